@@ -155,7 +155,7 @@ theorem applyTopo_safe (cfg : Cfg) (hx : HexOK cfg) {s : RState} (hi : RInv s) (
       rintro ⟨cs, rest⟩ _ hdec
       dsimp only
       obtain ⟨hcl, hcb⟩ := readFaceLists_ok _ hdec
-      refine Safe.bind (addCells_safe cfg hx cs hcb) ?_
+      refine Safe.bind (addCells_safe cfg hx hi.facesOk cs hcb) ?_
       intro o _ ho
       cases o with
       | none => exact Safe.invalid
